@@ -175,6 +175,14 @@ def run_case(tree, spec, extra, cfgname, earlier=()):
         thr = vals[len(vals) // 2] * out.unit_d
         sel["density"] = lambda d: d >= thr * osyris.units("g/cm**3")
         rows = [r for r in rows if r["density"] * out.unit_d >= thr]
+    elif extra.startswith("dxmin"):
+        # a lower bound on the cell size next to the level criterion: the tree is truncated by the level criterion alone, and the
+        # size criterion then filters its leaves (dx of level l is box / 2^l; the bound sits between two levels)
+        k = int(extra[5:])
+        box = out.boxlen * out.unit_l
+        bound = box / 2**k * 0.75
+        sel["dx"] = lambda dxs: dxs > bound * osyris.units("cm")
+        rows = [r for r in rows if box / 2 ** r["level"] > bound]
     elif extra == "position":
         half = 0.5 * out.boxlen * out.unit_l
         sel["position_x"] = lambda x: x > half * osyris.units("cm")
@@ -361,6 +369,9 @@ def cases(thorough):
         for t in [t for t in trees if any(l < t.levelmax for (l, _c) in t.refined)][:: max(1, len(trees) // 4)][:4]:
             for spec in level_specs(t.levelmax)[::4]:
                 yield label, t, spec, "none:same-dict-after-refusal", "1cpu"
+            for spec in level_specs(t.levelmax)[::2]:
+                for k in range(1, t.levelmax + 1):
+                    yield label, t, spec, "dxmin%d" % k, "1cpu"
     for form in ("partial", "callable-object", "bound-method", "def"):
         for label, trees in fams[:3]:
             for t in trees[:: max(1, len(trees) // 3)][:3]:
